@@ -95,61 +95,75 @@ Theorem coverage_implies_memo_transparent :
 Proof. exact covered_table_memo_transparent. Qed.
 Print Assumptions coverage_implies_memo_transparent.
 
-(* ---- watch mode ----
+(* ---- watch mode ---- (model follows the recorder after the fixes 0717f2b and dbd24f7)
    For EVERY log of observations (ReadDirectory, per-name lookups, full
    listings, ReadFile, ModKey, entry kind / symlink target) made on a file
    system w and every later file system w': if none of the watch predicates
    computed by WatchData() is dirty on w', then every observation of the log
    answers on w' what it answered on w - in particular the "looked for and not
-   found" lookups (wasPresent = false, stateFileMissing, stateDirUnreadable).
-   Hypotheses, each the negation of one recorded finding's shape or a standing
-   assumption of the property:
-   - wf_path: no path is observed in two kinds (as a directory and as a file);
-     finding F is the refutation without it;
-   - kind_hyps: no symlink resolution - the entries whose kind the build asks
-     for are plain entries in both worlds (findings G and G2 are the
-     refutations without it), their kind agrees with the file system
-     (file <-> stat says file, directory <-> listable, present <-> has a kind),
-     and kind_companions: the build used the entry the way the resolver does
-     (it came from a Get; a file was then read, a directory then listed);
-   - file_hyps: a path read as a file is a readable regular file or absent in
-     both worlds, an unchanged usable mod key means unchanged contents
-     ("modification times advance normally"), a real mod key is not the zero value.
+   found" lookups (wasPresent = false, stateFileMissing, stateDirUnreadable) and
+   what a symlink resolves to.
+   Hypotheses that remain, and why:
+   - wf_path: the first observation of a directory path is its ReadDirectory;
+     reads of that same path as a file may follow when it really is a listable
+     directory (the shape of former finding F, now inside the theorem).  Still
+     excluded is the opposite mix - ReadDirectory after file observations, or
+     file observations of a path whose ReadDirectory failed: the recorder keeps
+     one record per path.  On the real code that mix is a regular file probed as
+     a directory, for which the resolver reports "Cannot read directory: not a
+     directory" and the build fails whatever the file contains.
+   - kind_hyps / kind_companions: entry kinds agree with the file system (the
+     kind of an entry is the kind of what it resolves to; a plain present entry
+     resolves to itself; a symlink never resolves to its own path and what it
+     resolves to has a kind) and the build used the entry the way the resolver
+     does (it came from a Get; a file was then read, a directory then listed).
+     Symlinks are inside the theorem now (former findings G and G2); what
+     remains is "a plain entry is not replaced by a symlink of the same name":
+     with a usable mod key the inode in the key changes, with an unusable one
+     only the contents are compared and nothing records that the entry was plain.
+   - file_hyps, dir_coh: a path read only as a file is a readable regular file
+     or absent in both worlds, an unchanged usable mod key means unchanged
+     contents ("modification times advance normally"), a real mod key is not the
+     zero value; a listable directory is not readable as a file and stat works on it.
    Not covered: the original-case spelling of a present entry. *)
 Theorem watch_covers_observations :
   forall (child : path -> name -> path) w w' log,
-    (forall o, In o log -> wf_path log (obs_path o)) ->
-    (forall o, In o log -> is_file_op o = true -> file_hyps w w' (obs_path o)) ->
+    (forall o, In o log -> wf_path w log (obs_path o)) ->
+    (forall o, In o log -> forallb is_file_op (proj (obs_path o) log) = true -> file_hyps w w' (obs_path o)) ->
+    (forall p, dir_coh w p /\ dir_coh w' p) ->
     (forall d n, In (OKind d n) log ->
-       kind_hyps child w d n /\ kind_hyps child w' d n /\ kind_companions child log w d n) ->
+       kind_hyps child w d n /\ kind_hyps child w' d n /\ kind_companions child log w d n /\
+       (ww_islink w d n = false -> ww_islink w' d n = false)) ->
     clean w' (finalize w (record w log)) = true ->
     all_same w w' log = true.
 Proof. exact watch_covers_observations_all. Qed.
 Print Assumptions watch_covers_observations.
 
-(* The unrestricted statement is false of the faithful model in exactly the
-   three recorded shapes, each replayed on the real code by stream c09/known:
-   F - a directory whose listing was consulted for a missing name and that is
-       afterwards read as a file loses its record (violates wf_path); *)
-Theorem watch_covers_observations_unrestricted_refuted :
-  clean f_w' (finalize f_w (record f_w f_log)) = true /\ all_same f_w f_w' f_log = false.
-Proof. exact watch_unrestricted_refuted. Qed.
-Print Assumptions watch_covers_observations_unrestricted_refuted.
+(* The three former counterexamples of the unrestricted statement (refuted
+   theorems until the fixes landed; still replayed on the real code by stream
+   c09/known as must-pass cases) are now detected by the recorded predicates:
+   F - a listed directory that is also read as a file keeps its record; the
+       log is inside the theorem's domain and the new entry is reported; *)
+Theorem watch_finding_F_shape_covered :
+  (forall o, In o f_log -> wf_path f_w f_log (obs_path o)) /\
+  dirty_paths f_w' (finalize f_w (record f_w f_log)) = [1] /\ all_same f_w f_w' f_log = false.
+Proof. exact (conj finding_F_shape_in_domain finding_F_shape_detected). Qed.
+Print Assumptions watch_finding_F_shape_covered.
 
-(* G - a symlink is re-pointed: entry, old target and every record unchanged,
-       the resolved target differs (violates "no symlink resolution"); *)
-Theorem watch_covers_observations_symlink_retarget_refuted :
-  clean (g_world 6) (finalize (g_world 5) (record (g_world 5) g_log)) = true /\
-  all_same (g_world 5) (g_world 6) g_log = false.
-Proof. exact watch_symlink_retarget_refuted. Qed.
-Print Assumptions watch_covers_observations_symlink_retarget_refuted.
+(* G - a re-pointed symlink makes the directory's record dirty (and an
+       unchanged one leaves it clean); *)
+Theorem watch_finding_G_shape_covered :
+  dirty_paths (g_world 6) (finalize (g_world 5) (record (g_world 5) g_log)) = [1] /\
+  clean (g_world 5) (finalize (g_world 5) (record (g_world 5) g_log)) = true.
+Proof. exact finding_G_shape_detected. Qed.
+Print Assumptions watch_finding_G_shape_covered.
 
-(* G2 - the missing target of a dangling symlink appears (same hypothesis). *)
-Theorem watch_covers_observations_dangling_symlink_refuted :
-  clean (g2_world false) (finalize (g2_world true) (record (g2_world true) g2_log)) = true /\
-  all_same (g2_world true) (g2_world false) g2_log = false.
-Proof. exact watch_dangling_symlink_refuted. Qed.
-Print Assumptions watch_covers_observations_dangling_symlink_refuted.
+(* G2 - so does the appearance of the missing target of a dangling symlink. *)
+Theorem watch_finding_G2_shape_covered :
+  dirty_paths (g2_world false) (finalize (g2_world true) (record (g2_world true) g2_log)) = [1] /\
+  clean (g2_world true) (finalize (g2_world true) (record (g2_world true) g2_log)) = true.
+Proof. exact finding_G2_shape_detected. Qed.
+Print Assumptions watch_finding_G2_shape_covered.
 
 (* ---- the whole cache set, including the resolver's cached reads ----
    For every edit history and every build program over the full interface
